@@ -1412,6 +1412,113 @@ func c01hTranscoders() (string, error) {
 	return "/-- the four header conversions of the transcoders: (function, every value of every field is copied with Add, body and trailers are\n    handed on unchanged) -/\ndef transcoders : List (String × Bool × Bool) := [" + strings.Join(rows, ", ") + "]\n", nil
 }
 
+
+// the codec's header maps (mhttp2.go): every value of a received field is appended, in order; cookie crumbs are joined;
+// the Trailer announcement is taken out of the header map; trailer fields are appended likewise
+func c01hCodecMaps() (string, error) {
+	const file = "pkg/module/http2/mhttp2.go"
+	rangeBodies := func(recv, fn, over string) ([]string, error) {
+		fd, err := c01hFuncBody(file, recv, fn)
+		if err != nil {
+			return nil, err
+		}
+		var out []string
+		ast.Inspect(fd.Body, func(n ast.Node) bool {
+			if r, ok := n.(*ast.RangeStmt); ok && c01hKey(r.X) == over {
+				var body []string
+				for _, s := range r.Body.List {
+					switch x := s.(type) {
+					case *ast.ExprStmt:
+						body = append(body, c01hKey(x.X))
+					case *ast.AssignStmt:
+						body = append(body, c01hKey(x.Lhs[0])+x.Tok.String()+c01hKey(x.Rhs[0]))
+					case *ast.IfStmt:
+						body = append(body, "if:"+c01hKey(x.Cond))
+						var walk func(b *ast.BlockStmt, pfx string)
+						walk = func(b *ast.BlockStmt, pfx string) {
+							for _, y := range b.List {
+								if as, ok := y.(*ast.AssignStmt); ok {
+									body = append(body, pfx+c01hKey(as.Lhs[0])+as.Tok.String()+c01hKey(as.Rhs[0]))
+								}
+								if is, ok := y.(*ast.IfStmt); ok {
+									walk(is.Body, pfx)
+								}
+							}
+						}
+						walk(x.Body, "then:")
+						if eb, ok := x.Else.(*ast.BlockStmt); ok {
+							walk(eb, "else:")
+						}
+					default:
+						body = append(body, fmt.Sprintf("%T", s))
+					}
+				}
+				out = append(out, strings.Join(body, ";"))
+			}
+			return true
+		})
+		return out, nil
+	}
+	reqLoop, err := rangeBodies("MServerConn", "processRequest", "f.RegularFields()")
+	if err != nil {
+		return "", err
+	}
+	respLoop, err := rangeBodies("MClientConn", "handleResponse", "f.RegularFields()")
+	if err != nil {
+		return "", err
+	}
+	reqTr, err := rangeBodies("stream", "mprocessTrailerHeaders", "f.RegularFields()")
+	if err != nil {
+		return "", err
+	}
+	respTr, err := rangeBodies("MClientConn", "processHeaders", "f.RegularFields()")
+	if err != nil {
+		return "", err
+	}
+	// cookie join and Trailer removal in processRequest
+	fd, err := c01hFuncBody(file, "MServerConn", "processRequest")
+	if err != nil {
+		return "", err
+	}
+	sep, cookieCond, delTrailer := "", "", false
+	ast.Inspect(fd.Body, func(n ast.Node) bool {
+		switch x := n.(type) {
+		case *ast.IfStmt:
+			if x.Init != nil && strings.Contains(c01hKey(x.Init.(*ast.AssignStmt).Rhs[0]), `rp.header["Cookie"]`) {
+				cookieCond = c01hKey(x.Cond)
+				for _, y := range x.Body.List {
+					if es, ok := y.(*ast.ExprStmt); ok {
+						if c, ok := es.X.(*ast.CallExpr); ok && c01hKey(c.Fun) == "rp.header.Set" && len(c.Args) == 2 && c01hKey(c.Args[0]) == `"Cookie"` {
+							if j, ok := c.Args[1].(*ast.CallExpr); ok && c01hKey(j.Fun) == "strings.Join" && len(j.Args) == 2 && c01hKey(j.Args[0]) == "cookies" {
+								if b, ok := j.Args[1].(*ast.BasicLit); ok {
+									sep, _ = strconv.Unquote(b.Value)
+								}
+							}
+						}
+					}
+				}
+			}
+		case *ast.CallExpr:
+			if c01hKey(x) == `delete(rp.header,"Trailer")` {
+				delTrailer = true
+			}
+		}
+		return true
+	})
+	if cookieCond != "len(cookies) > 1" || sep == "" {
+		return "", fmt.Errorf("MServerConn.processRequest: the cookie join (%q, %q) is outside the vocabulary", cookieCond, sep)
+	}
+	out := "/-- mhttp2.go: the loops that collect the received regular fields / trailer fields into the http.Header maps (statement keys) -/\n"
+	out += "def reqCollect : List String := " + c01hStrList(reqLoop) + "\n"
+	out += "def respCollect : List String := " + c01hStrList(respLoop) + "\n"
+	out += "def reqTrailerCollect : List String := " + c01hStrList(reqTr) + "\n"
+	out += "def respTrailerCollect : List String := " + c01hStrList(respTr) + "\n"
+	out += "/-- `if cookies := rp.header[\"Cookie\"]; len(cookies) > 1 { rp.header.Set(\"Cookie\", strings.Join(cookies, <sep>)) }` -/\n"
+	out += "def cookieSeparator : List UInt8 := " + c01hBytes(sep) + "\n"
+	out += fmt.Sprintf("/-- `delete(rp.header, \"Trailer\")` -/\ndef reqDeletesTrailerField : Bool := %v\n", delTrailer)
+	return out, nil
+}
+
 func c01hGen() (string, error) {
 	s := header("C01H2Map", "pkg/stream/http2/stream.go", "pkg/module/http2/mhttp2.go", "pkg/module/http2/transport.go", "pkg/module/http2/write.go",
 		"pkg/filter/stream/transcoder/httpconv")
@@ -1422,7 +1529,7 @@ func c01hGen() (string, error) {
 		c01hServerAppendHeaders,
 		func() (string, error) { return c01hAppendTrailers("clientStream", "client") },
 		func() (string, error) { return c01hAppendTrailers("serverStream", "server") },
-		c01hReqEncoder, c01hRespEncoder, c01hWriteHeaderCL, c01hEndStream, c01hTranscoders,
+		c01hReqEncoder, c01hRespEncoder, c01hWriteHeaderCL, c01hEndStream, c01hTranscoders, c01hCodecMaps,
 	} {
 		part, err := g()
 		if err != nil {
